@@ -50,6 +50,18 @@ CHECKS = {
         note="Coq kernel; extraction/driver; harness; binary64 division and round() modelled in Z and validated on every case; no axioms",
         technique="Coq proof over hand-written Gallina model + differential correspondence",
         design="4 C16"),
+    "C18": dict(
+        text=("Theorems over the Gallina transcription of the Constraint predicates, for all well-formed logical trees: a "
+              "constraint reported requires/excludes is logically equivalent to l=>r / not(l and r) for the extracted pair; "
+              "the seven documented forms are classified and yield (a,b); simple/complex/pseudo/strict are mutually "
+              "consistent (every complex constraint exactly one of pseudo/strict); split parts' conjunction is equivalent to "
+              "the constraint (PARTIAL: without XOR/EQUIVALENCE — the full statement is refuted with witnesses, an open "
+              "finding in the flamapy.core dependency); features = names occurring, once. 'Never raises / never modifies' "
+              "is decided on the implementation by suite K (AST dump before/after), not by a theorem."),
+        note=("Coq kernel; extraction/driver; harness; fuelled transcriptions of simplify_formula/to_cnf (theorems conditional on "
+              "an Ok result; fuel exhaustion never observed); known finding core-simplify-xor-equivalence; no axioms"),
+        technique="Coq proof over hand-written Gallina model + differential correspondence + truth-table oracle",
+        design="4 C18"),
 }
 
 NOT_YET = {
